@@ -10,6 +10,7 @@ import (
 	"sort"
 
 	"verif/harness/h"
+	"verif/harness/rs"
 )
 
 type checkFn func(run *h.Run)
@@ -17,6 +18,10 @@ type replayFn func(detail json.RawMessage) error
 
 var checks = map[string]checkFn{}
 var replays = map[string]replayFn{}
+
+// freeruns: free-running (uncontrolled) versions of the concurrent scenario bodies, run by a
+// -race build of this binary as a supplementary pass.
+var freeruns = map[string]func(iters int){}
 
 // subcommands lets tagged files add commands (e.g. the E3 worker).
 var subcommands = map[string]func(args []string){}
@@ -89,6 +94,18 @@ func main() {
 			os.Exit(1)
 		}
 		fmt.Println("not reproduced (the case now satisfies the oracle)")
+	case "freerun":
+		f, ok := freeruns[os.Args[2]]
+		if !ok {
+			fmt.Fprintln(os.Stderr, "no free-running pass for", os.Args[2])
+			os.Exit(2)
+		}
+		iters := 100
+		if len(os.Args) > 3 {
+			fmt.Sscan(os.Args[3], &iters)
+		}
+		quietPlain()
+		f(iters)
 	default:
 		if f, ok := subcommands[os.Args[1]]; ok {
 			f(os.Args[2:])
@@ -97,6 +114,8 @@ func main() {
 		usage()
 	}
 }
+
+func quietPlain() { rs.Quiet(false) }
 
 func usage() {
 	fmt.Fprintln(os.Stderr, "usage: vcheck run <Cxx> <quick|thorough> | vcheck replay <file> | vcheck list")
